@@ -45,6 +45,10 @@ pub fn cases(tier: Tier) -> Vec<Case> {
 		Case::DbFile("db-table-L0", "sst-l0"),
 		Case::DbFile("db-wal-absolute", "wal"),
 		Case::DbFile("db-vlog-fullcheck", "vlog"),
+		Case::DbFile("db-table-L1-big-snappy", "sst-l1-big"),
+		Case::DbFile("db-table-versioned", "sst-versioned"),
+		Case::DbFile("db-vlog-first-of-several", "vlog-first"),
+		Case::DbFile("db-wal-two-blocks", "wal-big"),
 	];
 	if tier == Tier::Thorough {
 		v.extend([
@@ -162,11 +166,23 @@ fn build_db(sel: &str) -> Result<DbBase, String> {
 			o.absolute_consistency = true;
 			o
 		}
+		"vlog-first" => {
+			let mut o = OptSet::base("L2-vlog8-64-fullcheck").with_vlog(8, 64);
+			o.vlog_checksum = true;
+			o
+		}
+		"wal-big" => {
+			let mut o = OptSet::base("L2-absolute-big");
+			o.absolute_consistency = true;
+			o
+		}
+		"sst-l1-big" => OptSet::base("L2-bs256-snappy").cache(0).snappy(),
+		"sst-versioned" => OptSet::base("L2-bs64-versioned").cache(0).versioned(0, false),
 		_ => OptSet::base("L2-bs64").cache(0),
 	};
 	if sel.starts_with("sst") {
-		opt.block_size = 64;
-		opt.index_partition_size = 64;
+		opt.block_size = if sel == "sst-l1-big" { 256 } else { 64 };
+		opt.index_partition_size = if sel == "sst-l1-big" { 128 } else { 64 };
 		opt.restart = 2;
 	}
 	let mut w = World::new(opt.clone(), &[])?;
@@ -175,28 +191,45 @@ fn build_db(sel: &str) -> Result<DbBase, String> {
 	for i in 0..6 {
 		w.commit(&[Write::set(format!("k{i}").as_bytes(), &val(i))], Durability::Eventual)?.map_err(|e| e)?;
 	}
+	if sel == "sst-l1-big" {
+		for i in 10..50 {
+			w.commit(&[Write::set(format!("k{i}").as_bytes(), &val(i))], Durability::Eventual)?.map_err(|e| e)?;
+		}
+	}
+	if sel == "sst-versioned" {
+		// several versions of k2 and a soft delete: time-travel reads go through the same blocks
+		w.commit(&[Write::set(b"k2", b"second-version-of-k2")], Durability::Eventual)?.map_err(|e| e)?;
+		w.commit(&[Write::new(crate::model::Kind::SoftDelete, b"k3", b"")], Durability::Eventual)?.map_err(|e| e)?;
+	}
+	if sel == "wal-big" {
+		// a record that straddles the 32 KiB block boundary (First/Last fragments), then small ones
+		let big = vec![b'w'; 33_000];
+		w.commit(&[Write::set(b"k6", &big)], Durability::Eventual)?.map_err(|e| e)?;
+		w.commit(&[Write::set(b"k7", b"after-the-big-one")], Durability::Eventual)?.map_err(|e| e)?;
+	}
 	w.commit(&[Write::new(crate::model::Kind::Delete, b"k1", b"")], Durability::Eventual)?.map_err(|e| e)?;
-	if sel != "wal" {
+	let is_wal = sel == "wal" || sel == "wal-big";
+	if !is_wal {
 		w.physical(Phys::FlushAll)?;
 	}
-	if sel == "sst-l1" || sel == "manifest" {
+	if sel == "sst-l1" || sel == "manifest" || sel == "sst-l1-big" {
 		w.physical(Phys::Compact)?;
 	}
-	if sel != "wal" {
+	if !is_wal {
 		// something unflushed on top
 		w.commit(&[Write::set(b"k9", b"tail")], Durability::Eventual)?.map_err(|e| e)?;
 	}
 	w.close()?;
 	let dir = w.dir.clone();
 	let sub = match sel {
-		"wal" => "wal",
-		"vlog" => "vlog",
+		"wal" | "wal-big" => "wal",
+		"vlog" | "vlog-first" => "vlog",
 		"manifest" => "manifest",
 		_ => "sstables",
 	};
 	let mut files: Vec<PathBuf> = std::fs::read_dir(dir.join(sub)).map_err(|e| format!("{e}"))?.flatten().map(|e| e.path()).filter(|p| p.is_file()).collect();
 	files.sort();
-	let f = files.last().ok_or_else(|| format!("no file under {sub}"))?.clone();
+	let f = if sel == "vlog-first" { files.first() } else { files.last() }.ok_or_else(|| format!("no file under {sub}"))?.clone();
 	let bytes = std::fs::read(&f).map_err(|e| format!("{e}"))?;
 	Ok(DbBase {
 		dir,
@@ -218,9 +251,44 @@ fn db_answers(dir: &Path, opt: &OptSet) -> Result<Answers, String> {
 			out.push((format!("get({k})"), r));
 		}
 		for fwd in [true, false] {
-			let r = txn.range(crate::world::LO, crate::world::HI).map_err(|e| format!("{e}")).and_then(|mut it| if fwd { crate::world::scan_fwd(&mut it) } else { crate::world::scan_bwd(&mut it) }).map(|p| format!("{:?}", p.iter().map(|(k, v)| format!("{}={}", String::from_utf8_lossy(k), String::from_utf8_lossy(v))).collect::<Vec<_>>()));
+			let r = txn.range(crate::world::LO, crate::world::HI).map_err(|e| format!("{e}")).and_then(|mut it| if fwd { crate::world::scan_fwd(&mut it) } else { crate::world::scan_bwd(&mut it) }).map(|p| format!("{:?}", p.iter().map(|(k, v)| format!("{}={}", String::from_utf8_lossy(k), crate::util::fnv64(v))).collect::<Vec<_>>()));
 			out.push((if fwd { "scan-fwd" } else { "scan-bwd" }.to_string(), r));
 		}
+		if opt.versioning.is_some() {
+			let o = surrealkv::HistoryOptions::new().with_tombstones(true);
+			let r = txn.history_with_options(crate::world::LO, crate::world::HI, &o).map_err(|e| format!("{e}")).and_then(|mut it| {
+				use surrealkv::LSMIterator;
+				let mut v = vec![];
+				let mut ok = it.seek_first().map_err(|e| format!("{e}"))?;
+				while ok && v.len() < 200 {
+					let k = it.key().user_key().to_vec();
+					let val = if it.key().is_tombstone() { None } else { Some(it.value().map_err(|e| format!("{e}"))?) };
+					v.push(format!("{}@{}={:?}", String::from_utf8_lossy(&k), it.key().timestamp(), val.map(|x| crate::util::fnv64(&x))));
+					ok = it.next().map_err(|e| format!("{e}"))?;
+				}
+				Ok(format!("{v:?}"))
+			});
+			out.push(("history".to_string(), r));
+		}
+	}
+	// the same reads after the store itself has rewritten what it read: a flush and a compaction
+	// round must not turn altered bytes into "valid" different data
+	let maint = w.physical(Phys::FlushAll).and_then(|_| w.physical(Phys::Compact));
+	{
+		let _g = w.rt.as_ref().unwrap().enter();
+		let txn = w.tree().begin_with_mode(Mode::ReadOnly).map_err(|e| format!("begin: {e}"))?;
+		for k in ["k0", "k2", "k3", "k5", "k9"] {
+			let r = match &maint {
+				Err(e) => Err(format!("maintenance failed: {e}")),
+				Ok(()) => txn.get(k.as_bytes()).map(|o| format!("{:?}", o.map(|v| String::from_utf8_lossy(&v).to_string()))).map_err(|e| format!("{e}")),
+			};
+			out.push((format!("after-compaction:get({k})"), r));
+		}
+		let r = match &maint {
+			Err(e) => Err(format!("maintenance failed: {e}")),
+			Ok(()) => txn.range(crate::world::LO, crate::world::HI).map_err(|e| format!("{e}")).and_then(|mut it| crate::world::scan_fwd(&mut it)).map(|p| format!("{:?}", p.iter().map(|(k, v)| format!("{}={}", String::from_utf8_lossy(k), crate::util::fnv64(v))).collect::<Vec<_>>())),
+		};
+		out.push(("after-compaction:scan-fwd".to_string(), r));
 	}
 	w.abandon();
 	Ok(out)
